@@ -87,6 +87,8 @@ def check(repo, rep, tier):
         # consumed per sentence)
         rp.r_sentence_loop(repo, rep, 'R1.3', ti)
         rp.r_root_ids(repo, rep, 'R1.3', ti)            # every allowed root category gets an id, whether the tagger knows it or not
+    rc.r_rule_ids(m, rep, 'R1.2')            # positions and ids an item carries are full-width integers: a packed field wraps for long sentences and the search works on other spans
+    rp.r_score_buffers(repo, rep, 'R1.2')    # the matrices are read with the layout they really have
     rp.r_config_plumbing(repo, rep, 'R1.3')     # (includes config-once) the derivations searched are those over the supertags the caller's beam admits, scored with the caller's penalty
     from .c11 import r_state, r_chunks, r_gather
     r_state(repo, rep, 'R1.3')
